@@ -218,8 +218,76 @@ def _job(vec):
     return problems
 
 
+def cid_load_traces(report, vectors, tier):
+    """
+    code -> spec: Cid.read calls recorded through the hooks (a sample of the generated CIDs, and every CID the
+    repository's own test-suite loads) are validated against CidLoadTrace.tla.
+    """
+    import copy
+    import os
+    import subprocess
+    from harness import tracelib
+    rng = core.rng(9)
+    folder = core.workdir("c09trace")
+    try:
+        path = os.path.join(folder, "generated.ndjson")
+        tracelib.enable_hooks(path)
+        try:
+            ordered = sorted(vectors, key=core.json.dumps)
+            for vec in rng.sample(ordered, min(len(ordered), 500 if tier == "quick" else 5000)):
+                load(concrete_rows(vec, 0)[1], False)
+        finally:
+            tracelib.disable_hooks()
+        sources = [("sample of the generated CIDs loaded with the hooks on", path)]
+        suite = os.path.join(folder, "suite.ndjson")
+        env = dict(os.environ)
+        env[core.GUARD] = "1"
+        env["CUTPLACE_VERIF_TRACE"] = suite
+        files = [name for name in ("tests/test_interface.py", "tests/test_validio.py", "tests/test_applications.py", "tests/test_sql.py")
+                 if os.path.exists(os.path.join(core.REPO, name))]
+        subprocess.run(["/venv/bin/python", "-m", "pytest", "-q", "-p", "no:cacheprovider", "--timeout=600"] + files, cwd=core.REPO,
+                       env=env, stdout=subprocess.PIPE, stderr=subprocess.STDOUT)
+        if os.path.exists(suite):
+            sources.append(("repository test-suite with the guard on (%s)" % ", ".join(files), suite))
+        for label, trace_path in sources:
+            accepted, rejected = tracelib.validate_cid_loads(report, trace_path, label)
+            report.traces_validated += accepted + len(rejected)
+            report.notes.setdefault("trace_sources", []).append({"source": label, "accepted": accepted, "rejected": len(rejected)})
+            for item in rejected[:3]:
+                report.violation("c09", {"kind": "cidtrace", "trace": item["trace"]}, "a behaviour of CidLoad.tla", item["no_action_explains"],
+                                 "recorded Cid.read (%s) is not a behaviour of the specification: after %d of %d events no action "
+                                 "explains %s" % (label, item["matched_prefix"], item["events"], core.json.dumps(item["no_action_explains"])[:300]))
+        # binding demonstration: claim that the refused row of a rejected CID was processed to its end, and drop one row
+        traces = tracelib.transcribe_cid_loads(tracelib.load_events(path, cid_loading=True))
+        victims = [t for t in traces if t["events"] and not t["done"] and t["events"][-1]["ev"] == "row" and not t["events"][-1]["ended"]
+                   and t["events"][-1]["k"] == "junk"][:1]
+        victims += [t for t in traces if t["done"] and len(t["events"]) > 4][:1]
+        if len(victims) == 2:
+            corrupted = copy.deepcopy(victims)
+            corrupted[0]["events"][-1]["ended"] = True
+            del corrupted[1]["events"][1]
+            corrupted_path = os.path.join(folder, "corrupted.json")
+            scratch = core.Report("C09", tier)
+            original = tracelib.transcribe_cid_loads
+            tracelib.transcribe_cid_loads = lambda events: corrupted
+            try:
+                accepted, rejected = tracelib.validate_cid_loads(scratch, path, "binding demonstration")
+            finally:
+                tracelib.transcribe_cid_loads = original
+            if len(rejected) != 2:
+                core.selftest_failed("CidLoadTrace accepted a corrupted trace (%d of 2 rejected)" % len(rejected))
+            report.notes["binding_demonstration"] = "a refused junk row marked as processed, and one row removed from an accepted load: " \
+                                                    "both rejected by TLC"
+        else:
+            core.selftest_failed("no recorded Cid.read suitable for the binding demonstration")
+    finally:
+        core.cleanup(folder)
+
+
 def replay(behaviour, report=None):
     core.import_repo()
+    if behaviour.get("kind") == "cidtrace":
+        return []
     return _job(behaviour)
 
 
@@ -243,6 +311,7 @@ def run(tier, report):
                 report.violation("c09", vec, {"status": vec["status"], "errRow": vec["errRow"]}, None, problem)
             else:
                 report.violations.append({"what": problem})
+    cid_load_traces(report, vectors, tier)
     if not report.violations:
         for vec in vectors:
             if vec["status"] == "rejected" and vec["errRow"] > 1:
